@@ -223,6 +223,6 @@ Proof.
   - exists [eof_token (off' + blen ws)]. split; [now apply Run_eof|].
     cbn [map_opt]. rewrite (shift_eof_token ins del _ (off' + blen ws)) by lia. reflexivity.
   - destruct (IH (off' + blen ws + blen lx) ltac:(lia)) as [tl' [Hr' Hm]].
-    exists (mk_token (off' + blen ws) k e lx :: tl'). split; [now apply Run_tok|].
+    exists (mk_token (off' + blen ws) k e lx :: tl'). split; [eapply Run_tok; eauto|].
     cbn [map_opt]. rewrite (shift_mk_token ins del _ (off' + blen ws)) by lia. now rewrite Hm.
 Qed.
